@@ -193,7 +193,7 @@ CLAIMED["C06"] = ("proof",
     "key-exchange specification; C06_agreement: for ALL well-formed client draws (draws_ok: field widths) and ALL conformant server parameters the run ends Success, both sides hold the same 256-byte key, key id and "
     "salt, the server accepts every client frame, exactly one session save happens and any first encrypted request opens on the server (link to C03; under the two IGE premises of C03). RSA/DH through a modexp "
     "Section variable with the Z.pow laws; SHA-1/AES via the C05/C03 interfaces; instance with the Gallina primitives. Tied to the code by running the real CreateConnection "
-    "against an in-process handshake server with the client's crypto/rand draws scripted, incl. the 24 forced leading-zero corners, comparing outcome, every plain frame, key, "
+    "against an in-process handshake server with the client's crypto/rand draws scripted, incl. the 24 forced leading-zero corners, exponents that make g_b a short number (every length of the inner data modulo the block), the server address given as an IP literal or as a name with a port, the temp directory on another file system than the session file, comparing outcome, every plain frame, key, "
     "id, salt on both sides, the session file and the first encrypted packet with the extracted model.",
     "DESIGN.md section 8 (C06: plan) and section 11.4 / 11.6 (as built)",
     "Trusted: Coq kernel; extraction; harness incl. hsserver. Partial: Pollard-rho SplitPQ termination is probabilistic and not proved (premise split pq <> None; whenever the loop "
@@ -205,7 +205,7 @@ CLAIMED["C07"] = ("proof",
     "Same model with the server an ARBITRARY environment (history of sent frames -> next reply): Success implies every nonce echo was equal, a fingerprint matched, the decrypted "
     "answer was SHA1(answer) ++ answer ++ (<16 bytes), the inner data echoed both nonces, new_nonce_hash1 is correct at fixed width and the reply constructors were resPQ, "
     "server_DH_params_ok, dh_gen_ok; not Success implies every effect is a plain send (no Save, no encrypted send) and no Save can follow an abort whatever arrives afterwards (C07_abort_stays_clean); whenever the server answers each request with something - a reply, an unreadable body, a transport error code, a close - the run ends Success or with an error, never stalled (C07_error_unless_silent); makeAuthKey never panics (seven premises on the library functions, discharged for the Gallina primitives in C07_no_panic_inst). Tied to the code by hundreds of "
-    "single-fault scripts (every reply field x bit flip / random / other nonce / zero x alternative constructors, padding and length faults) run against the real client in child "
+    "single-fault scripts (every reply field x bit flip / random / other nonce / zero / the same bytes moved by one place x alternative constructors, padding and length faults) run against the real client in child "
     "processes under a watchdog: verdict, session store and frames compared with the extracted model.",
     "DESIGN.md section 8 (C07: plan) and section 11.4 / 11.6 (as built)",
     "Trusted: as C06. After every aborted and every successful exchange the scripted server keeps talking (unencrypted new_session_created / bad_server_salt / rpc_result / container / garbage): store calls counted, client state read back.",
